@@ -236,16 +236,29 @@ def m_u_checked_sub(tr, c):
     tr.emit(f"{tr.lv(Loc(n.discr, d.idxs))} = (({a}) < ({b})) ? {ni} : {si}; {tr.lv(Loc(n.variants[si][1].fields[0], d.idxs))} = (u64)(({a}) - ({b}));")
 
 
-@model("Uint::saturating_add", rx(r"ruint::add::(<impl Uint>::)?saturating_add"), "ruint::add::saturating_add")
+def _dest_ct(c, default="u64"):
+    """C type of the abstract U256 at the call's destination (the abstract width is a per-check choice)"""
+    try:
+        d = c.dest()
+    except TranslateError:
+        d = None
+    if d is not None and d.node.kind == "scalar":
+        return d.node.ctype
+    return default
+
+
+@model("Uint::saturating_add", rx(r"ruint::add::(<impl Uint>::)?saturating_add"), "ruint::add::saturating_add", doc="saturating + at the abstract width")
 def m_u_sat_add(tr, c):
     a, b = _v(tr, c.args[0]), _v(tr, c.args[1])
-    c.ret(VScalar(f"(((u64)(({a}) + ({b})) < ({a})) ? (u64)~(u64)0 : (u64)(({a}) + ({b})))", "u64"))
+    ct = _dest_ct(c)
+    c.ret(VScalar(f"((({ct})(({a}) + ({b})) < ({ct})({a})) ? ({ct})~({ct})0 : ({ct})(({a}) + ({b})))", ct))
 
 
-@model("Uint::saturating_sub", rx(r"ruint::add::(<impl Uint>::)?saturating_sub"), "ruint::add::saturating_sub")
+@model("Uint::saturating_sub", rx(r"ruint::add::(<impl Uint>::)?saturating_sub"), "ruint::add::saturating_sub", doc="saturating - at the abstract width")
 def m_u_sat_sub(tr, c):
     a, b = _v(tr, c.args[0]), _v(tr, c.args[1])
-    c.ret(VScalar(f"((({a}) > ({b})) ? (u64)(({a}) - ({b})) : (u64)0)", "u64"))
+    ct = _dest_ct(c)
+    c.ret(VScalar(f"((({a}) > ({b})) ? ({ct})(({a}) - ({b})) : ({ct})0)", ct))
 
 
 @model(rx(r"<Uint as (Add|Sub)>::(add|sub)"), rx(r"ruint::.*<impl (Add|Sub)[^>]*>::(add|sub)"), doc="wrapping-checked +/- (panics on overflow like ruint in debug builds)")
